@@ -178,6 +178,86 @@ Fixpoint derive (tbl : list entry) (en : env) (v : wval) (p : list deriv) : opti
 Definition requests_of (v : wval) : list N :=
   match v with HC _ => client_requests | HD _ => dedicated_requests end.
 
+(** * Stacked hooks: WithHook(WithHook(c, h1), h2) …
+
+    The client wrapped by a hookclient may itself be a hookclient; the dedicated client wrapped (through [extended])
+    by a [dedicated] may itself be a [dedicated] of an inner hook.  Hooks are identified by a level; each hook is
+    assumed to perform the same call once on the client it is handed (that is what "passes the request on" means;
+    the observer's counting hooks do exactly this). *)
+
+Inductive sclient := SBase (i : N) | SHooked (l : N) (inner : sclient).
+Inductive sded := SDBase (i : N) | SDHooked (l : N) (inner : sded).
+Inductive sevent := SHook (l : N) (m : N) | SInner (m : N) (i : N) | SPanic.
+
+Fixpoint scall (tbl : list entry) (c : sclient) (m : N) : option (list sevent) :=
+  match c with
+  | SBase i => Some [SInner m i]
+  | SHooked l inner =>
+    match lookup tbl WHookclient m with
+    | Some (BDeleg OHook callee true _ _) => option_map (cons (SHook l callee)) (scall tbl inner callee)
+    | Some (BDeleg OHook callee false _ _) => Some [SHook l callee]
+    | Some (BDeleg OInner callee _ _ _) => scall tbl inner callee
+    | Some BPanic => Some [SPanic]
+    | _ => None
+    end
+  end.
+
+(** a request on a hooked dedicated client: the hook is handed [extended{inner}], whose Do/DoMulti/Receive/… are the
+    methods promoted from [inner] *)
+Fixpoint sdcall (tbl : list entry) (d : sded) (m : N) : option (list sevent) :=
+  match d with
+  | SDBase i => Some [SInner m i]
+  | SDHooked l inner =>
+    match lookup tbl WDedicated m with
+    | Some (BDeleg OHook callee true _ _) => option_map (cons (SHook l callee)) (sdcall tbl inner callee)
+    | Some (BDeleg OHook callee false _ _) => Some [SHook l callee]
+    | Some (BDeleg OInner callee _ _ _) => sdcall tbl inner callee
+    | Some BPanic => Some [SPanic]
+    | _ => None
+    end
+  end.
+
+(** Dedicate() / Dedicated(fn) on a (possibly stacked) client *)
+Fixpoint sdedicate (tbl : list entry) (en : env) (via : N) (c : sclient) : option sded :=
+  match c with
+  | SBase i => Some (SDBase (env_dedicate en i))
+  | SHooked l inner =>
+    match lookup tbl WHookclient via with
+    | Some (BWrapResult callee WDedicated true true _) | Some (BWrapCallback callee WDedicated true true _) =>
+      if callee =? via then option_map (SDHooked l) (sdedicate tbl en via inner) else None
+    | Some (BDeleg OInner callee _ _ _) => if callee =? via then sdedicate tbl en via inner else None
+    | _ => None
+    end
+  end.
+
+Fixpoint snodes (tbl : list entry) (en : env) (c : sclient) : option (list sclient) :=
+  match c with
+  | SBase i => Some (map SBase (env_nodes en i))
+  | SHooked l inner =>
+    match lookup tbl WHookclient mNodes with
+    | Some (BWrapMap callee WHookclient true true) =>
+      if callee =? mNodes then option_map (map (SHooked l)) (snodes tbl en inner) else None
+    | Some (BDeleg OInner callee _ _ _) => if callee =? mNodes then snodes tbl en inner else None
+    | _ => None
+    end
+  end.
+
+Fixpoint sderive (tbl : list entry) (en : env) (c : sclient) (p : list deriv) : option (sclient + sded) :=
+  match p with
+  | [] => Some (inl c)
+  | DDedicated :: _ => option_map inr (sdedicate tbl en mDedicated c)
+  | DDedicate :: _ => option_map inr (sdedicate tbl en mDedicate c)
+  | DNode k :: r =>
+    match snodes tbl en c with
+    | Some ns => match nth_error ns k with Some c' => sderive tbl en c' r | None => None end
+    | None => None
+    end
+  end.
+
+(** hook levels, outermost first, over a base client *)
+Definition stack (ls : list N) (i : N) : sclient := fold_right SHooked (SBase i) ls.
+Definition dstack (ls : list N) (i : N) : sded := fold_right SDHooked (SDBase i) ls.
+
 (** ---- correspondence cases (printed by harness/cmd/obs_hook) ----
     The observer's hook records its invocation and then performs the same call on the client it was given;
     the fake underlying clients record what reaches them, with their identifier. *)
@@ -187,7 +267,8 @@ Definition through_test_hook (evs : list event) : list event :=
   flat_map (fun e => match e with EvHook m i => [EvHook m i; EvInner m i] | _ => [e] end) evs.
 
 Inductive case :=
-| CCall (root : N) (path : list deriv) (m : N) (impl_events : list event) (impl_result_unchanged : bool).
+| CCall (root : N) (path : list deriv) (m : N) (impl_events : list event) (impl_result_unchanged : bool)
+| CStack (levels : list N) (root : N) (path : list deriv) (m : N) (impl_events : list sevent).
 
 Definition event_eqb (a b : event) : bool :=
   match a, b with
@@ -196,8 +277,22 @@ Definition event_eqb (a b : event) : bool :=
   | _, _ => false
   end.
 
+Definition sevent_eqb (a b : sevent) : bool :=
+  match a, b with
+  | SHook l m, SHook l' m' => (l =? l') && (m =? m')
+  | SInner m i, SInner m' i' => (m =? m') && (i =? i')
+  | SPanic, SPanic => true
+  | _, _ => false
+  end.
+
 Definition check_case_with (tbl : list entry) (c : case) : bool :=
   match c with
+  | CStack ls root path m evs =>
+    match sderive tbl test_env (stack ls root) path with
+    | Some (inl c') => match scall tbl c' m with Some mevs => list_eqb sevent_eqb mevs evs | None => false end
+    | Some (inr d) => match sdcall tbl d m with Some mevs => list_eqb sevent_eqb mevs evs | None => false end
+    | None => false
+    end
   | CCall root path m evs unchanged =>
     match derive tbl test_env (HC root) path with
     | Some v =>
